@@ -188,8 +188,18 @@ func GenPlan(l Lens, base uint64, tier string, idx int) *Plan {
 	r := rand.New(rand.NewPCG(seed, 0x5bd1e995))
 	p := l.Gen(r, tier, idx)
 	p.Property, p.Seed, p.GenVersion, p.Tier = l.ID(), seed, GenVersion, tier
+	if p.Tape == nil && len(p.Prio) == 0 && defaultTape[l.ID()] {
+		// Lenses whose world has one task at a time on the tree as it is: a tape is consulted only when more than one
+		// task can run, which here means goroutines that a changed tree starts itself (rt.Spawn) - their order
+		// must not be the order of their creation every time. Drawn from a generator of its own, so the plans the
+		// lens generates are what they were.
+		tr := rand.New(rand.NewPCG(seed, 0x7a11e))
+		p.Tape = Tape(tr, 96, Pick(tr, 0.2, 0.5, 0.8))
+	}
 	return p
 }
+
+var defaultTape = map[string]bool{"C01": true, "C02": true, "C03": true, "C05": true, "C06": true, "C07": true, "C10": true, "C12": true, "C13": true, "C16": true}
 
 // SandboxBase is where per-run sandboxes are created.
 var SandboxBase = func() string {
